@@ -3426,6 +3426,10 @@ operatorSwitch:
 		}
 
 	case wasm.OpcodeTailCallReturnCall:
+		if c.ensureTermination {
+			// Tail calls can form a cycle without any loop instruction.
+			c.emit(newOperationBuiltinFunctionCheckExitCode())
+		}
 		fdef := c.module.FunctionDefinition(index)
 		functionFrame := c.controlFrames.functionFrame()
 		// Currently we do not support imported functions, we treat them as regular calls.
@@ -3454,6 +3458,10 @@ operatorSwitch:
 		}
 		c.pc += n
 
+		if c.ensureTermination {
+			// Tail calls can form a cycle without any loop instruction.
+			c.emit(newOperationBuiltinFunctionCheckExitCode())
+		}
 		functionFrame := c.controlFrames.functionFrame()
 		dropRange := c.getFrameDropRange(functionFrame, false)
 		c.emit(newOperationTailCallReturnCallIndirect(typeIndex, tableIndex, dropRange, functionFrame.asLabel()))
